@@ -31,7 +31,7 @@ EXPLANATION = (
     'composite or alias), route docs, namespace docs, the datatype whitelist. Decides closure '
     'mechanics, not minimality.'
     ' RD (decision drift, stonelint.conddrift): the tests of the functions this property is anchored in (stonelint.ownership) are compared with reference/conditions.json; a relation, polarity or connective changed over the same operands, or an operand purely added or dropped, is a violation; re-spellings and new or removed tests are not claimed.'
-    " RE (expression drift, stonelint.exprdrift): the same functions' attribute names, variable reads, simple statements, calls and arithmetic/slice literals are compared with reference/expressions.json; a substituted attribute or variable, a dropped call or assignment, swapped arguments or a changed literal is a violation; any other edit is not claimed.")
+    " RE (expression drift, stonelint.exprdrift): the same functions' attribute names, variable reads, simple statements, calls and arithmetic/slice literals are compared with reference/expressions.json; a substituted attribute or variable, a dropped call or assignment, swapped arguments or a changed literal is a violation; any other edit is not claimed. RC (call-condition drift, stonelint.conddrift.run_calls): for every call of a repository or imported-library function in those functions, the path conditions of its occurrences are compared with reference/conditions.json by truth table; an assignment under which the function used to make the call and now completes without it is a violation (tests on memo tables, emptiness of the iterated collection and earlier refusals excepted; re-spelled conditions are not claimed). MK (memo-key rule, stonelint.memo): a memo table or done-set the reference tree does not have must be keyed by every access path the skipped code reads, injectively and type-aware.")
 ASSUMPTIONS = [
     'a reference-bearing attribute is one assigned, in a constructor or set_* method of an IR '
     'class, from a parameter named like a data type (data_type, *_data_type, parent_type, fields, '
@@ -227,6 +227,51 @@ def run(pm, ctx):
               msg='the whitelist rebuild encodes kept routes as %s but decodes them with '
                   'parse_route_name_and_version: a doc-referenced `r:2` is rebuilt as version 1'
                   % [unparse(r)[:60] for r in reprs], key='C20-R2|%s|route-repr' % flt.qualname)
+    # a route is identified by name AND version: every place that decodes a route
+    # representation uses both halves of the pair
+    n_dec = 0
+    for f in pm.funcs_in('stone.frontend.ir_generator'):
+        for c in own_nodes(f.node):
+            if not (isinstance(c, ast.Call) and call_name(c) == 'parse_route_name_and_version'):
+                continue
+            n_dec += 1
+            par = getattr(c, '_parent', None)
+            both = False
+            if isinstance(par, ast.Assign) and par.value is c and len(par.targets) == 1 and \
+                    isinstance(par.targets[0], ast.Tuple) and len(par.targets[0].elts) == 2 and \
+                    all(isinstance(t, ast.Name) for t in par.targets[0].elts):
+                names = [t.id for t in par.targets[0].elts]
+                reads = {n.id for n in own_nodes(f.node)
+                         if isinstance(n, ast.Name) and isinstance(n.ctx, ast.Load)}
+                both = all(nm in reads for nm in names)
+            ctx.check('C20-R2', both, '%s: decoded route name and version are both used' % f.short,
+                      '%s:%d' % (f.module.relpath, c.lineno),
+                      msg='%s decodes a route representation but does not use both the name and '
+                          'the version: another version of a kept route is kept (or dropped) with '
+                          'it' % f.short, key='C20-R2|%s|name-and-version' % f.qualname)
+    ctx.floor('C20-R2', n_dec, 3, 'route representations decoded')
+    # the types a route refers to are collected as written: nothing in the closure computation
+    # looks through an alias (unwrap / unwrap_aliases / resolve_aliases), or the alias would be
+    # filtered out while the route still names it
+    import re as _re
+    from ..ownership import OWN as _OWN
+    pats = [_re.compile(x) for x in _OWN['C20']]
+    STRIP = ('unwrap', 'unwrap_aliases', 'resolve_aliases', 'strip_alias', 'unwrap_nullable')
+    n_cl = 0
+    for q, f in sorted(pm.functions.items()):
+        if not any(x.search(q) for x in pats):
+            continue
+        n_cl += 1
+        hits = [c for c in own_nodes(f.node, include_nested=True)
+                if isinstance(c, ast.Call) and call_name(c) in STRIP and
+                call_name(c) != 'unwrap_nullable']
+        ctx.check('C20-R2', not hits, '%s: references are collected without looking through aliases'
+                  % f.short, f.loc,
+                  msg='%s looks through aliases (%s) while collecting what a route depends on: the '
+                      'alias itself is no longer kept although the route still refers to it'
+                  % (f.short, ', '.join(sorted({call_name(c) for c in hits}))),
+                  key='C20-R2|%s|alias-kept' % f.qualname)
+    ctx.floor('C20-R2', n_cl, 4, 'closure functions inspected for alias stripping')
     ns_cls = pm.cls(API + '.ApiNamespace')
     init = ns_cls.methods['__init__']
     lists = [unparse(n.targets[0])[5:] for n in own_nodes(init.node)
